@@ -100,6 +100,13 @@ def Cfg.pinned : Cfg :=
     firstNodeLast := false, nodesFilterNull := false, hasTypedMap := false, hasTypedDescent := false,
     firstTypedWildOne := false, walkTypedArray := false, typedMapWild := false, typedObjFilter := false }
 
+/-- every deviation off -/
+def Cfg.fixed : Cfg :=
+  { innerEmptySlice := false, descentSiblings := false, locNegEnd := false, locStartClamp := false, locEmptyArray := false, locateRoot := false, walkDescentNoSelf := false,
+    nodesUnionNil := false, nodesFilterRev := false, firstNodeLast := false, nodesFilterNull := false,
+    typedMapWild := false, typedObjFilter := false, firstTypedSlice := false, firstTypedWildOne := false,
+    hasTypedMap := false, hasTypedDescent := false, walkTypedArray := false }
+
 /-- how arrays are held -/
 inductive AK where
   | any      -- []any
